@@ -38,7 +38,12 @@ HTML_ONLY = [':any-link', ':checked', ':default', ':defined', ':dir(ltr)', ':dir
              ':required']
 SENSITIVE = ['svg|circle', 'svg|*', 'html|p', '#o p', 'div p', 'iframe p', 'x', 'span', '*|circle', 'svg|a', ':--z', '.a',
              '.b', '[id]']
-FOCUS = [(a, b) for a in HTML_ONLY for b in SENSITIVE] + [(b, a) for a in HTML_ONLY for b in SENSITIVE]
+NO_MATCH = [':active', ':current', ':focus', ':focus-visible', ':focus-within', ':future', ':host', ':hover', ':local-link',
+            ':past', ':paused', ':playing', ':target', ':target-within', ':user-invalid', ':visited', ':current(p)', ':host(p)',
+            ':host-context(p)', 'a:hover', 'p:focus']
+PLAIN_ALTS = ['p', '.a', '*', 'span']
+FOCUS = [(a, b) for a in HTML_ONLY for b in SENSITIVE] + [(b, a) for a in HTML_ONLY for b in SENSITIVE] + \
+    [(a, b) for a in PLAIN_ALTS for b in NO_MATCH] + [(b, a) for a in PLAIN_ALTS for b in NO_MATCH]
 NFOCUS = len(FOCUS)
 
 
@@ -116,4 +121,4 @@ def _laws(pi, ni):
     return ok
 
 
-PLIM = 70 if TIER == 'quick' else 4000
+PLIM = 80 if TIER == 'quick' else 4000
